@@ -16,7 +16,7 @@ META = {
             "subqueries, matrix selectors, @ start()/end(), negative offsets). For each text the real parser must accept iff predicted "
             "and produce the predicted AST and type; String() of it must parse to an equal AST and print identically; Prettify() at line "
             "widths 100/30/8/1 must parse to an equal AST. Every single-token deletion/duplication/swap of every text and every token "
-            "sequence of length <= 3 over a 36-token alphabet must be parsed or rejected with ParseErrors (never ErrUnexpected / panic), "
+            "sequence of length <= 3 over a 30-token alphabet (62 tokens in the thorough tier) must be parsed or rejected with ParseErrors (never ErrUnexpected / panic), "
             "and whatever is accepted must round-trip as well.",
     "note": "Bounded: expressions of <= 4-7 productions per exhaustive config (leaves+modifiers, infix chains of 3 operands over all 18 "
             "operators, all 16 modifier forms on 2-operand chains, calls/aggregations over typed and ill-typed arguments), deeper mixes "
